@@ -1,9 +1,9 @@
 //! C30: RateLimiter / TokenBucket on a virtual clock.
 //! Case lines (times are ticks of 1/512 s, so that the f64 token arithmetic is exact):
 //!   new <enabled> <rate> <burst> <cap>
-//!   check <client> <tick> => A <remaining> <reset_ns> ev=<client|-> n=<tracked>
-//!                          | L <retry_ns> ev=<client|-> n=<tracked> | panic ev=… n=…
-//!   cleanup <tick> <max_age_ticks> => n=<tracked>
+//!   check <client> <tick> => A <remaining> <reset_ns> ev=<client|-> tr=<tracked clients, sorted|->
+//!                          | L <retry_ns> ev=… tr=… | panic ev=… tr=…
+//!   cleanup <tick> <max_age_ticks> => tr=<tracked>
 use crate::util::{catch, Ctx};
 use std::net::{IpAddr, Ipv4Addr};
 use std::panic::AssertUnwindSafe;
@@ -16,6 +16,10 @@ const TICK_NS: u64 = 1_953_125; // 1/512 s
 
 fn ip(i: u64) -> IpAddr { IpAddr::V4(Ipv4Addr::new(10, 0, 0, i as u8)) }
 fn client_of(a: &IpAddr) -> u64 { match a { IpAddr::V4(v) => v.octets()[3] as u64, _ => 255 } }
+
+fn fmt_set(v: &[u64]) -> String {
+    if v.is_empty() { "-".to_string() } else { v.iter().map(|x| x.to_string()).collect::<Vec<_>>().join(",") }
+}
 
 struct Sys {
     rt: tokio::runtime::Runtime,
@@ -47,12 +51,12 @@ impl Sys {
             Ok(RateLimitResult::Limited { retry_after }) => format!("L {}", retry_after.as_nanos()),
             Err(_) => "panic".to_string(),
         };
-        format!("{} ev={} n={}", head, ev, after.len())
+        format!("{} ev={} tr={}", head, ev, fmt_set(&after))
     }
     fn cleanup(&self, tick: u64, age: u64) -> String {
         self.at(tick);
         self.rt.block_on(self.lim.cleanup(Duration::from_nanos(age * TICK_NS)));
-        format!("n={}", self.tracked().len())
+        format!("tr={}", fmt_set(&self.tracked()))
     }
 }
 
